@@ -188,7 +188,14 @@ class Scen(CompScenario):
                     else:
                         self.hit("stop_requested_when_empty")
                 if done[sp]:
-                    self.expect(lvl > 0, "stop-ran-without-event", f"{sp} ran but no event of way {k} is in flight", port=sp)
+                    if cnt > lvl:
+                        # only possible with lvl == 0 (premise above).  The statement does not say that stop refuses
+                        # without an event in flight: counted, no event finishes in the model -- a sample the
+                        # measurer records for it shows through the histogram comparison
+                        self.hit("stop_ran_without_event")
+                        cnt = min(cnt, lvl)
+                    elif lvl == 0:
+                        self.hit("stop_ran_without_event")
                     if cnt == 0:
                         self.hit("zero_count_call")
                     if cnt >= 2:
@@ -265,6 +272,9 @@ class Prop(PropBase):
             "transactron.lib.fifo.WideFifo", "transactron.lib.memory.AsyncMemoryBank", "transactron.lib.adapters.AdapterTrans",
             "TransactionManager + scheduler", "amaranth pysim"]
     stubs = ["cycle driver (stimulus with deadline-aware stops)", "queue / slot-table of start cycles + reference histogram"]
+    assumptions = ["a start / stop executed in cycle t is visible in the histogram registers from cycle t+1; latency = stop "
+                   "cycle - start cycle; bucket boundaries, min / max / sum / count as documented in the HwExpHistogram "
+                   "class docstring"]
     search_space = "measurer configurations and start/stop histories within the slot counts and within max_latency"
 
     def gen_config(self, rng, tier, idx):
